@@ -122,7 +122,26 @@ func mpclcEvents(pkg *packages.Package, call *ast.CallExpr) ([]string, bool) {
 		return []string{"!Bytes"}, true
 	case name == "io.WriteString" && len(call.Args) == 2:
 		return []string{"!Bytes"}, true
-	case (name == "r.Read" || name == "io.ReadFull"):
+	case name == "io.ReadFull" && len(call.Args) == 2:
+		// a fixed-size scratch array read in full is an integer field of that width
+		if sl, ok := ast.Unparen(call.Args[1]).(*ast.SliceExpr); ok && sl.Low == nil && sl.High == nil {
+			if t := pkg.TypesInfo.TypeOf(sl.X); t != nil {
+				if arr, ok := t.Underlying().(*types.Array); ok {
+					switch arr.Len() {
+					case 1:
+						return []string{"?U8"}, true
+					case 2:
+						return []string{"?U16"}, true
+					case 4:
+						return []string{"?U32"}, true
+					case 8:
+						return []string{"?U64"}, true
+					}
+				}
+			}
+		}
+		return []string{"?Bytes"}, true
+	case name == "r.Read":
 		return []string{"?Bytes"}, true
 	case strings.HasPrefix(name, "fmt."), strings.HasPrefix(name, "types."), strings.HasPrefix(name, "wiresSeen."):
 		return nil, true
